@@ -2,6 +2,7 @@
 package w20
 
 import (
+	"bufio"
 	"errors"
 	"fmt"
 	"strconv"
@@ -440,6 +441,49 @@ func Stacked(j *job.Job, s *job.Sink) {
 			}
 		}
 	}
+	// prefixes that a template engine or a regular expression would read something into
+	// ($-references, escapes, percent verbs): to the indenter a prefix is bytes
+	if j.Shard == 0 {
+		for _, prefix := range []string{"$$ ", "$1> ", "${x}", "$", "$0", "\\1", "%s ", "%!", "\\n", "^", ".*", "$name_"} {
+			for _, text := range []string{"x", "x\ny", "x\n", "\nx", "a$1\n$$b\n", "", "\n\n"} {
+				idx++
+				s.Count("template_prefix_cases", 1)
+				want, _ := Ref(prefix, text)
+				if got := indent.String(prefix, text); got != want {
+					s.Violation(idx, j.CaseID(idx), "C20.oneshot", "string", fmt.Sprintf("String(%q,%q)=%q want %q", prefix, text, got, want), map[string]any{"prefix": prefix, "text": text}, nil)
+				}
+				if got := string(indent.Bytes([]byte(prefix), []byte(text))); got != want {
+					s.Violation(idx, j.CaseID(idx), "C20.oneshot", "bytes", fmt.Sprintf("Bytes(%q,%q)=%q want %q", prefix, text, got, want), map[string]any{"prefix": prefix, "text": text}, nil)
+				}
+				for cut := 0; cut <= len(text); cut++ {
+					var c collect
+					w := indent.NewWriter(&c, prefix)
+					n1, e1 := w.Write([]byte(text[:cut]))
+					n2, e2 := w.Write([]byte(text[cut:]))
+					if string(c.got) != want || n1 != cut || n2 != len(text)-cut || e1 != nil || e2 != nil {
+						s.Violation(idx, j.CaseID(idx), "C20.writer", "content", fmt.Sprintf("prefix %q: Write(%q), Write(%q) gave %q (%d,%v %d,%v), one-shot rendering %q", prefix, text[:cut], text[cut:], c.got, n1, e1, n2, e2, want), map[string]any{"prefix": prefix, "text": text}, nil)
+					}
+				}
+			}
+		}
+		// an underlying bufio.Writer that is already in its error state (an earlier Flush to a
+		// full device failed) but still has room in its buffer: it accepts nothing, and the
+		// indenting writer must say so
+		for _, prefix := range []string{"-", ">>"} {
+			for _, chunk := range []string{"k", "l\nm", "\n", "two\nlines\n"} {
+				idx++
+				s.Count("bufio_error_state_cases", 1)
+				bw := bufio.NewWriterSize(&budget{left: 3}, 64)
+				w := indent.NewWriter(bw, prefix)
+				w.Write([]byte("0123456789"))
+				bw.Flush() // fails after three bytes; the error sticks
+				n, err := w.Write([]byte(chunk))
+				if n != 0 || err == nil {
+					s.Violation(idx, j.CaseID(idx), "C20.stacked", "short-count", fmt.Sprintf("prefix %q: Write(%q) over a bufio.Writer in its error state = %d, %v; nothing reached it", prefix, chunk, n, err), map[string]any{"prefix": prefix, "chunk": chunk}, nil)
+				}
+			}
+		}
+	}
 	// an underlying writer that accepts only part of the output and returns the short count
 	// without an error: the count handed to the caller is the number of its bytes that
 	// arrived, and a count below the length of the argument comes with an error
@@ -524,6 +568,19 @@ func Stacked(j *job.Job, s *job.Sink) {
 			}
 		}
 	}
+}
+
+// budget accepts left bytes in all and fails from then on.
+type budget struct{ left int }
+
+func (b *budget) Write(p []byte) (int, error) {
+	if len(p) <= b.left {
+		b.left -= len(p)
+		return len(p), nil
+	}
+	n := b.left
+	b.left = 0
+	return n, errShort
 }
 
 // silentShort takes only limit bytes of the first write it sees once armed and says so in
